@@ -162,6 +162,14 @@ MUTANTS = [
      "require_taxon: a known label yields a fresh non-member"),
     ("C12", "dendropy/datamodel/taxonmodel.py", "            for taxon in self._taxa:\n                memo[id(taxon)] = taxon\n        return memo",
      "            for taxon in self._taxa[1:]:\n                memo[id(taxon)] = taxon\n        return memo", "populate_memo: the first taxon is not entered (it would be copied)"),
+    ("C02", TM + "_tree.py", "        tree_list.write_to_stream(stream, schema, **kwargs)", "        tree_list.write_to_stream(stream, schema)", "Tree.write: writer options dropped (TreeList.write keeps them)"),
+    ("C02", TM + "_tree.py", "        tree_list = TreeList(taxon_namespace=self.taxon_namespace)\n        tree_list.append(self, taxon_import_strategy=\"add\")",
+     "        tree_list = TreeList()\n        tree_list.append(self)", "Tree.write: the tree is migrated to a new namespace by being written"),
+    ("C02", TC, "        writer = dataio.get_writer(schema, **kwargs)\n        writer.write_tree_list(self, stream)",
+     "        writer = dataio.get_writer(schema, **kwargs)\n        writer.write_tree_list(self[:1] if kwargs.get(\"suppress_rooting\") else self, stream)",
+     "TreeList.write: under one option only the first tree is written"),
+    ("C02", "dendropy/datamodel/basemodel.py", "        with open(os.path.expandvars(os.path.expanduser(dest)), \"w\") as f:", "        with open(os.path.expandvars(os.path.expanduser(dest)), \"a\") as f:",
+     "write_to_path: appends to what the file held"),
     ("C09", "dendropy/datamodel/basemodel.py", "        return s.getvalue()\n", "        return s.getvalue().rstrip()\n", "as_string: the buffer is trimmed before it is returned"),
     ("C09", "dendropy/datamodel/basemodel.py", "        self._format_and_write_to_stream(stream=s, schema=schema, **kwargs)\n        return s.getvalue()",
      "        self._format_and_write_to_stream(stream=s, schema=schema)\n        return s.getvalue()", "as_string: writer options dropped"),
